@@ -60,6 +60,10 @@ func main() {
 				lf.Close()
 			}
 		}
+		// the race pass wants the service's stderr reader goroutine to be busy
+		if os.Getenv("VCONV_STDERR") != "" {
+			fmt.Fprintf(os.Stderr, "converted %s", meta)
+		}
 		for _, ch := range []chunk{
 			{Direction: "client-to-server", Content: base64.StdEncoding.EncodeToString([]byte(strings.ToUpper(string(c)))), Time: t},
 			{Direction: "server-to-client", Content: base64.StdEncoding.EncodeToString([]byte(fmt.Sprint(len(s)))), Time: t},
